@@ -341,6 +341,7 @@ def run(chk):
     _chunkmode_rule(chk, prog)
     _cloexec_rule(chk, prog)
     _exitstatus_rule(chk, prog)
+    _spawnclose_rule(chk, prog)
 
 
 def _solewaiter_rule(chk, prog):
@@ -824,7 +825,29 @@ def _chunkmode_rule(chk, prog):
                     chk.violation(rule, tun, fn.name, "plain-read:" + c.callee, c.loc,
                                   "%s starts its read with %s, which completes after the first successful read: when the bytes arrive in "
                                   "more than one piece the chunk comes back short and the rest is given to the next read" % (fn.name, c.callee))
-    chk.floor(rule, 2, n)
+    # a read that understands :all ("until the stream ends") is a chunk-mode read with no bound: the branch taken for
+    # that keyword has to start with a chunk-mode starter as well
+    for tun in ("ev.c", "net.c"):
+        for fn in prog.tus[tun].funcs.values():
+            alls = [c for c in fn.nodes if c.k == "call" and c.callee == "janet_keyeq" and len(c.args) > 1 and "all" in c.args[1].text()]
+            if not alls or not fn.is_cfun_sig():
+                continue
+            chk.analysed(fn)
+            for c in alls:
+                n += 1
+                chk.instance(rule)
+                q = c.parent
+                while q is not None and q.k != "if":
+                    q = q.parent
+                ok = q is not None and any(z is c for z in q.kids[0].walk()) and any(
+                    y.k == "call" and y.callee in STARTERS and y.callee.endswith("chunk") for y in q.kids[1].walk())
+                if ok:
+                    chk.ok(rule, "%s: :all starts a chunk-mode read" % fn.name)
+                else:
+                    chk.violation(rule, tun, fn.name, ":all", c.loc,
+                                  "%s recognises :all but the read it starts for it is not a chunk-mode one: it completes on the first readiness "
+                                  "event that delivers any bytes, and what the peer sends afterwards is not part of the result" % fn.name)
+    chk.floor(rule, 4, n)
 
 
 FD_CREATORS = {"socket": 1, "accept4": 3, "epoll_create1": 0, "timerfd_create": 1, "inotify_init1": 0, "open": 1,
@@ -995,3 +1018,56 @@ def _exitstatus_rule(chk, prog):
                           "cancel) before the child exits, the child is reaped but its status is lost - (p :return-code) stays nil and a second "
                           "os/proc-wait is refused" % (fn.name, last.loc))
     chk.floor(rule, 1, n)
+
+
+def _spawnclose_rule(chk, prog):
+    """The child's descriptors are set up by a list of actions that posix_spawn performs in order: dup2(src, 0/1/2) for
+    each redirection, and close(src) when the source is no longer needed.  Two redirections may name the same handle
+    ({:in f :err f}), so a close is safe only if no LATER dup2 uses a source that may be the same descriptor: the
+    close has to sit under a test that its handle differs from each of those sources.  Otherwise the later dup2 fails
+    with EBADF and the program is never started."""
+    rule = "C16-SPAWNCLOSE"
+    chk.rule(rule, "in the spawn file actions, closing a redirection handle is guarded by `!=` against every redirection handle that a later dup2 still reads")
+    fn = prog.need_func("os_execute_impl", "os.c")
+    chk.analysed(fn)
+    acts = []
+    for c in fn.nodes:
+        if c.k == "call" and c.callee in ("posix_spawn_file_actions_adddup2", "posix_spawn_file_actions_addclose") and len(c.args) >= 2:
+            src = strip_casts(c.args[1])
+            if is_ref(src):
+                acts.append((c.ln, c.id, c.callee.endswith("addclose"), src.name, c))
+    acts.sort()
+    # handles that come from the caller's redirection table (not pipes this function created itself): those named in a
+    # `!=` comparison with another such handle anywhere in the function, or used by both a dup2 and a close
+    closes = [a for a in acts if a[2]]
+    dups = [a for a in acts if not a[2]]
+    user = set(n for (_, _, _, n, _) in acts if n.startswith("new_"))
+    if len(user) < 3:
+        user = set(n for (_, _, _, n, _) in dups) - set(n for (_, _, _, n, _) in acts if n.startswith("pipe"))
+    n = 0
+    for (ln, cid, _, x, c) in closes:
+        if x not in user:
+            continue
+        later = sorted(set(y for (l2, i2, isclose, y, _) in acts if not isclose and (l2, i2) > (ln, cid) and y in user and y != x))
+        n += 1
+        chk.instance(rule)
+        # enclosing if-conditions
+        guards = set()
+        q = c.parent
+        while q is not None:
+            if q.k == "if" and any(z is c for z in q.kids[1].walk()):
+                for y in q.kids[0].walk():
+                    if y.k == "bin" and y.op == "!=":
+                        names = [strip_casts(k).name for k in y.kids if is_ref(strip_casts(k))]
+                        if len(names) == 2 and x in names:
+                            guards.add([m for m in names if m != x][0])
+            q = q.parent
+        missing = [y for y in later if y not in guards]
+        if missing:
+            chk.violation(rule, "os.c", fn.name, "close:%s" % x, c.loc,
+                          "the child closes `%s` at %s although a later dup2 still reads `%s`, which may be the same handle (the same file given "
+                          "for both redirections): that dup2 then fails with EBADF, the program is never started and neither its output nor "
+                          "its exit status is delivered" % (x, c.loc, "`, `".join(missing)))
+        else:
+            chk.ok(rule, "close(%s) is guarded against %s" % (x, ", ".join(later) or "nothing later"))
+    chk.floor(rule, 3, n)
